@@ -14,7 +14,8 @@ from ..core import Check, Part, Result, must
 def cases(draw, big=False):
     fam = draw(st.sampled_from(['2d', '2d', '2d', '1d']))
     spec = draw(ng.netspecs(mu.profile(big, family=fam)))
-    t = draw(st.floats(min_value=math.log(0.05), max_value=math.log(20.0)))
+    t = draw(st.one_of(st.floats(min_value=math.log(0.05), max_value=math.log(20.0)),
+                      st.sampled_from([math.log(0.05), math.log(0.05), math.log(20.0)])))  # + the ends
     return {'spec': spec, 'w_prec': draw(mu.precisions), 'a_prec': draw(mu.precisions),
             'wseed': draw(st.integers(0, 50)), 'xseed': draw(st.integers(0, 50)),
             'aseed': draw(st.integers(0, 200)),
